@@ -10,3 +10,4 @@ pub(crate) mod refdec;
 pub(crate) mod l1_enc;
 pub(crate) mod refenc;
 pub(crate) mod l1_dec_wf;
+pub(crate) mod l1_prop_exact;
